@@ -207,18 +207,49 @@ Definition ent_handles (k : cfg) (s : sdk) (n : nat) : res (sdk * list nat) :=
     end
   else fresh_handles (commit s) n.
 
-(* _build_cmds_wait_move_epr_to_mem: every pair arrives in ID 0; all but the last
-   are moved to their memory qubit and ID 0 is freed.  vs = final IDs per pair *)
-Fixpoint move_loop (vs : list nat) : list event :=
+(* Bell-state corrections of the receiver: when the link layer reports a state other
+   than Phi+ for a pair, Pauli gates are applied to a virtual qubit.  cs = per pair,
+   "corrections run" (a shorter list means Phi+ for the remaining pairs). *)
+Definition corr_use (b : bool) (v : nat) : list event := if b then [EUse [v]] else [].
+
+(* _build_cmds_wait_move_epr_to_mem: every pair arrives in ID 0, is corrected there,
+   and all but the last are moved to their memory qubit and ID 0 is freed.
+   vs = final IDs per pair *)
+Fixpoint move_loop (vs : list nat) (cs : list bool) : list event :=
   match vs with
   | [] => []
-  | [_] => [EEpr 0]
-  | v :: r => [EEpr 0; EUse [0; v]; EFree 0] ++ move_loop r
+  | [_] => EEpr 0 :: corr_use (hd false cs) 0
+  | v :: r => [EEpr 0] ++ corr_use (hd false cs) 0 ++ [EUse [0; v]; EFree 0] ++ move_loop r (tl cs)
   end.
 
-(* EPR context body used by the check: q.H(); q.measure() *)
-Definition ctx_loop (vs : list nat) : list event :=
-  flat_map (fun v => [EEpr v; EUse [v]; EFree v]) vs.
+(* _build_cmds_epr_keep_corrections (several communication qubits, after wait_all): one
+   round per pair; the loop loads the pair's ID and then overwrites the register with
+   0, so the gates address virtual qubit 0 (recorded finding C10:wait-all-loop-corrects-
+   qubit-0; for C09 only the addressed ID matters) *)
+Fixpoint corr_list (vs : list nat) (cs : list bool) : list event :=
+  match vs with
+  | [] => []
+  | _ :: r => corr_use (hd false cs) 0 ++ corr_list r (tl cs)
+  end.
+
+(* what an EPR block / post routine does with its qubit *)
+Inductive body :=
+| BConsume (use : bool)   (* gets rid of it: measure() (use), gates or measure(inplace=True) then free() (use), free() alone *)
+| BKeep.                  (* applies a gate and keeps it *)
+Definition keeps (b : body) : bool := match b with BKeep => true | BConsume _ => false end.
+Definition body_events (b : body) (v : nat) : list event :=
+  match b with
+  | BConsume true => [EUse [v]; EFree v]
+  | BConsume false => [EFree v]
+  | BKeep => [EUse [v]]
+  end.
+
+(* pair after pair: delivered into its ID, corrected (post routine path), handled by the body *)
+Fixpoint pair_loop (vs : list nat) (cs : list bool) (b : body) : list event :=
+  match vs with
+  | [] => []
+  | v :: r => [EEpr v] ++ corr_use (hd false cs) v ++ body_events b v ++ pair_loop r (tl cs) b
+  end.
 
 Definition drop_last_handles (n : nat) (a : list (nat * nat)) : list (nat * nat) :=
   firstn (length a - n) a.
@@ -230,9 +261,9 @@ Inductive op :=
 | MeasureInplace (h : nat)
 | MeasureDestructive (h : nat)
 | Free (h : nat)
-| EprKeep (n : nat) (recv : bool)
-| EprContext (n : nat) (recv : bool)
-| EprKeepSeq (n : nat) (recv : bool)   (* keep with sequential=True and a post routine that measures the pair *)
+| EprKeep (n : nat) (recv : bool) (nonphi : list bool)   (* nonphi: per pair, the link layer reports a state other than Phi+ *)
+| EprContext (n : nat) (recv : bool) (b : body)
+| EprKeepSeq (n : nat) (recv : bool) (nonphi : list bool) (b : body)   (* keep with sequential=True and a post routine *)
 | Flush.
 
 (* sequential keep: every pair gets the same ID (_create_ent_qubits, `sequential`):
@@ -252,14 +283,16 @@ Definition seq_handles (k : cfg) (s : sdk) (n : nat) : res (sdk * nat) :=
 
 (* n pairs pass one after the other through one ID, each consumed (measured and
    freed) before the next is delivered; the n reserved handles are deactivated at
-   the end.  zero: the request names ID 0 for every pair (sdk_epr_keep with a single
+   the end (if the body keeps its qubit they stay; legal for one pair only).  zero: the request names ID 0 for every pair (sdk_epr_keep with a single
    communication qubit) rather than the handles' ID. *)
-Definition seq_run (k : cfg) (s : sdk) (n : nat) (zero : bool) : res sdk :=
+Definition seq_run (k : cfg) (s : sdk) (n : nat) (zero : bool) (cs : list bool) (b : body) : res sdk :=
   match seq_handles k s n with
   | inr e => inr e
   | inl (s1, v) =>
-      let s2 := emit s1 (ctx_loop (repeat (if zero then 0 else v) n)) in
-      inl (mkSdk (drop_last_handles n (active s2)) (next_h s2) (pending s2) (last_new s2))
+      let s2 := emit s1 (pair_loop (repeat (if zero then 0 else v) n) cs b) in
+      (* the body consumed its qubit: the handles are deactivated; else they stay *)
+      inl (mkSdk (if keeps b then active s2 else drop_last_handles n (active s2))
+                 (next_h s2) (pending s2) (last_new s2))
   end.
 
 (* _build_cmds_measure: on NV a qubit that is not at ID 0 is measured after the
@@ -313,40 +346,44 @@ Definition sdk_step (k : cfg) (s : sdk) (o : op) : res sdk :=
       | None => inr ErrDeadHandle
       | Some v => let s1 := emit s [EFree v] in inl (set_active s1 (deact h (active s1)))
       end
-  | EprKeep n _ =>
+  | EprKeep n recv nonphi =>
       if n =? 0 then inr ErrUnmodelled
       else if max_q k <? n then inr ErrReject          (* _check_epr_args *)
       else match ent_handles k s n with
            | inr e => inr e
            | inl (s1, vs) =>
-               inl (emit s1 (if single_comm k then move_loop vs else map EEpr vs))
+               let cs := if recv then nonphi else [] in   (* expect_phi_plus: only the receiver corrects *)
+               inl (emit s1 (if single_comm k then move_loop vs cs else map EEpr vs ++ corr_list vs cs))
            end
-  | EprContext n _ =>
+  | EprContext n _ b =>
       if n =? 0 then inr ErrUnmodelled
       else if max_q k <? n then inr ErrReject          (* _assert_epr_args *)
       else if single_comm k then
         (* _pre_epr_context: with one communication qubit all pairs get that qubit's ID
            (the `sequential` ID assignment); the handles were never shown to the host *)
-        match seq_run k s n false with
+        (* a context builds no Bell-state corrections.  Consumed: the handles were never
+           shown to the host; kept: they stay active (the check registers them as the
+           next host handles) *)
+        match seq_run k s n false [] b with
         | inr e => inr e
-        | inl s' => inl (mkSdk (active s') (next_h s) (pending s') (last_new s'))
+        | inl s' => inl (mkSdk (active s') (if keeps b then next_h s' else next_h s) (pending s') (last_new s'))
         end
       else match ent_handles k s n with
            | inr e => inr e
            | inl (s1, vs) =>
-               (* the pairs go to the handles' own IDs; the block consumes each
-                  pair; at block exit the reserved handles are deactivated and
-                  were never shown to the host *)
-               let s2 := emit s1 (ctx_loop vs) in
-               inl (mkSdk (drop_last_handles n (active s2)) (next_h s) (pending s2) (last_new s2))
+               (* the pairs go to the handles' own IDs; if the block consumes each pair
+                  the reserved handles are deactivated at block exit *)
+               let s2 := emit s1 (pair_loop vs [] b) in
+               inl (if keeps b then s2
+                    else mkSdk (drop_last_handles n (active s2)) (next_h s) (pending s2) (last_new s2))
            end
-  | EprKeepSeq n _ =>
+  | EprKeepSeq n recv nonphi b =>
       if n =? 0 then inr ErrUnmodelled
       else
-        (* _build_cmds_post_epr: pair after pair is delivered, measured by the post
-           routine and freed; the routine consumed its qubit, so the n handles handed
-           to the host are deactivated (they keep their numbers) *)
-        seq_run k s n (single_comm k)
+        (* _build_cmds_post_epr: pair after pair is delivered, corrected, handed to the
+           post routine; if the routine consumed its qubit the n handles handed to the
+           host are deactivated (they keep their numbers) *)
+        seq_run k s n (single_comm k) (if recv then nonphi else []) b
   | Flush => inl s
   end.
 
@@ -416,8 +453,12 @@ Definition in_budget (k : cfg) (s : sdk) (o : op) : bool :=
   | NewQubit => length (active s) + 1 <=? budget k
   | Gate1 h | MeasureInplace h | MeasureDestructive h | Free h => live s h
   | Gate2 h1 h2 => live s h1 && live s h2 && negb (h1 =? h2)
-  | EprKeep n _ | EprContext n _ => (1 <=? n) && (length (active s) + n <=? budget k)
-  | EprKeepSeq n _ => (1 <=? n) && (length (active s) + 1 <=? budget k)   (* one pair alive at a time *)
+  | EprKeep n _ _ => (1 <=? n) && (length (active s) + n <=? budget k)
+    (* a block that keeps its qubit: legal for several pairs only when each pair has its own ID *)
+  | EprContext n _ b => (1 <=? n) && (length (active s) + n <=? budget k) &&
+                        (negb (keeps b) || negb (single_comm k) || (n =? 1))
+  | EprKeepSeq n _ _ b => (1 <=? n) && (length (active s) + 1 <=? budget k) &&   (* one pair alive at a time *)
+                          (negb (keeps b) || (n =? 1))
   | Flush => true
   end.
 
